@@ -1,18 +1,33 @@
 """hw.parse_*: Internals::string_to_hw_address from one template.
 
-hw.parse_canonical: for every 6-octet address, parsing its textual form gives the address back (complete: the loops are
+hw.parse_canonical: for every 6-octet address, parsing the text the real hw_address_to_string produces gives the address back (complete: the loops are
 bounded by the 17 characters of the form).
 hw.parse_rejects: every string of at most L characters, parsed into N octets: an accepted string has the documented form
 ("00:01:da:fa:...": two hex digits per octet, ':' between octets, at most N octets, fewer are zero-filled) and its octets
 are the parsed values.  Quick: N=3, L=10; thorough: N=6, L=19 (every string a 6-octet address can consume, plus one)."""
 import os
 
+TOSTRING = r'''
+typedef struct { char p[32]; unsigned n; } STRB;     /* std::string being built: push_back only */
+static void STRB_push(STRB* s, char c) { __CPROVER_assert(s->n < 32, "model string capacity"); s->p[s->n++] = c; }
+//@ func src/hw_address.cpp hw_address_to_string
+sig: static void hw_address_to_string(const uint8_t* ptr, size_t count, STRB* output)
+rule: string output; ==> output->n = 0;
+rule?: output\.reserve\([^;]*\); ==> ;
+rule: output \+= ":"; ==> STRB_push(output, ':');
+rule: output \+= (\w+); ==> STRB_push(output, \1);
+rule: return output; ==> return;
+//@ endfunc
+'''
+
 CANON = r'''
 void h(void) {
-  uint8_t W_a[6]; char s[17]; for (int i = 0; i < 6; ++i) W_a[i] = nondet_uint8_t();
+  uint8_t W_a[6]; for (int i = 0; i < 6; ++i) W_a[i] = nondet_uint8_t();
+  STRB text; hw_address_to_string(W_a, 6, &text);          /* the real HWAddress::to_string / operator<< */
   static const char dig[] = "0123456789abcdef";
-  for (int i = 0; i < 6; ++i) { s[3 * i] = dig[W_a[i] >> 4]; s[3 * i + 1] = dig[W_a[i] & 15]; if (i < 5) s[3 * i + 2] = ':'; }
-  STR str = { s, 17 };
+  __CPROVER_assert(text.n == 17, "the textual form of a 6-octet address has 17 characters");
+  for (int i = 0; i < 6; ++i) __CPROVER_assert(text.p[3 * i] == dig[W_a[i] >> 4] && text.p[3 * i + 1] == dig[W_a[i] & 15] && (i == 5 || text.p[3 * i + 2] == ':'), "the textual form is two lower-case hex digits per octet, ':' between octets");
+  STR str = { text.p, text.n };
   uint8_t out[6];
   string_to_hw_address(&str, out, 6);
   for (int i = 0; i < 6; ++i) __CPROVER_assert(out[i] == W_a[i], "parsing the textual form of an address returns the same address");
@@ -57,10 +72,10 @@ def generate(outdir, tier):
     out = []
     for name, sub in (
         ('canonical', {'MODE': 'proof', 'BOUND': 'none: the loops run over the 17 characters of the textual form (unwinding assertions on)', 'UNWIND': '20',
-                       'ALLOWEXC': '#! allow-exc: none\n#! unreach: string_to_hw_address.L2', 'N': '6', 'L': '17', 'HARNESS': CANON,
+                       'ALLOWEXC': '#! allow-exc: none\n#! unreach: string_to_hw_address.L2', 'N': '6', 'L': '17', 'HARNESS': CANON, 'TOSTRING': TOSTRING,
                        'MUTANT': "mutant: hw_addr\\[i\\] - 'a' \\+ 10 ==> hw_addr[i] - 'a' + 11"}),
         ('rejects', {'MODE': 'bounded', 'BOUND': 'strings of at most %d characters parsed into %d octets (every string the parser can consume for that width, plus one character)' % (l, n), 'UNWIND': str(l + 3),
-                     'ALLOWEXC': '#! allow-exc: invalid_address', 'N': str(n), 'L': str(l), 'HARNESS': REJECT,
+                     'ALLOWEXC': '#! allow-exc: invalid_address', 'N': str(n), 'L': str(l), 'HARNESS': REJECT, 'TOSTRING': '',
                      'MUTANT': 'mutant: while \\(i < end\\) ==> while (i < end && i < hw_addr.size())'}),
     ):
         t = tm
